@@ -244,3 +244,141 @@ Proof.
     rewrite nth_error_plus. cbn [plus nth_error]. rewrite nth_error_app2 by lia. rewrite Nat.sub_diag.
     fold D. fold T. rewrite Hcb1. cbn [bind]. rewrite Hcb2. reflexivity.
 Qed.
+
+(** ** the expansion loop with a single recipe *)
+Fixpoint copies_run (n : nat) (recipe : list recipe_entry) (g : graph) (cur : Z) (prev : option Z)
+         (base : option (option Z)) : res (graph * Z * option Z * option (option Z)) :=
+  match n with
+  | O => Ok (g, cur, prev, base)
+  | Datatypes.S n' => '(g1, c1, _) <- eb_recipe recipe g cur prev ;; copies_run n' recipe g1 c1 (Some cur) (Some (Some cur))
+  end.
+Lemma exp_times_single anchor e es : forall n g cur prev base,
+  exp_times n [(anchor, e :: es)] g cur prev base = copies_run n (e :: es) g cur prev base.
+Proof.
+  induction n as [|n IH]; intros g cur prev base; [reflexivity|].
+  cbn [exp_times copies_run exp_items pa_truthy pa_is_none]. cbn [bind]. unfold expand_branch.
+  destruct (eb_recipe (e :: es) g cur prev) as [[[g1 c1] p1]|]; cbn [bind]; [|reflexivity]. apply IH.
+Qed.
+
+(** ** the machine on the longhand copies *)
+Record bnode := { bn_name : pystr; bn_mult : option (list nat); bn_bond : option sym }.
+Definition bnode_toks (b : bnode) : list tok := TNode (bn_name b) (mult_val (bn_mult b)) :: osym_tok (bn_bond b).
+Definition body_toks (body : list bnode) : list tok := flat_map bnode_toks body.
+(** the recipe entries the reader records for the body, [inc] = order of the bond reaching the first node *)
+Fixpoint body_entries (fo : float_oracle) (inc : Z) (body : list bnode) : option (list recipe_entry) :=
+  match body with
+  | [] => Some []
+  | b :: r =>
+      match parse_graph_base_node fo (bn_name b), body_entries fo (oord (bn_bond b)) r with
+      | Ok a, Some es => Some ((Z.of_nat (mult_val (bn_mult b)), a, Some inc) :: es)
+      | _, _ => None
+      end
+  end.
+(** side conditions of body nodes: names, counts, no symbol behind a multiplier, and a multiplied
+    node is reached by a single bond *)
+Definition sn_okb (m : option (list nat)) (b : option sym) : bool :=
+  match m with Some ds => digits_ok ds && (1 <=? digits_nat ds)%nat && negb (is_some b) | None => true end.
+Lemma sn_okb_ok m b : sn_okb m b = true -> sn_ok m b.
+Proof.
+  unfold sn_okb, sn_ok. destruct m; [|trivial]. intros H. apply andb_prop in H as [H H3]. apply andb_prop in H as [H1 H2].
+  apply Nat.leb_le in H2. repeat split; try assumption. now destruct b.
+Qed.
+Fixpoint body_ok (fo : float_oracle) (inc : Z) (body : list bnode) : bool :=
+  match body with
+  | [] => true
+  | b :: r => name_ok fo (bn_name b) && sn_okb (bn_mult b) (bn_bond b)
+              && ((mult_val (bn_mult b) <=? 1)%nat || (inc =? 1))
+              && body_ok fo (oord (bn_bond b)) r
+  end.
+
+Lemma eb_nodes_copies : forall n a o g cur p, ahas (S "node_for_adding") a = false -> (n <= 1)%nat \/ o = 1 ->
+  eb_nodes n a (Some o) g cur (Some p) = Ok (m_copies n a g cur (Some p) o).
+Proof.
+  induction n as [|n IH]; intros a o g cur p Ha Hc; [reflexivity|].
+  cbn [eb_nodes m_copies]. unfold py_add_node. rewrite Ha. cbn [bind of_option].
+  destruct n as [|n]; [reflexivity|]. destruct Hc as [Hc|Hc]; [lia|]. subst o.
+  change (order_attr (Some 1)) with (eorder 1). now rewrite (IH a 1 _ (cur + 1) cur Ha) by (right; reflexivity).
+Qed.
+Lemma name_ok_ahas fo nm a : name_ok fo nm = true -> parse_graph_base_node fo nm = Ok a -> ahas (S "node_for_adding") a = false.
+Proof. unfold name_ok. intros H E. rewrite E in H. apply andb_prop in H as [_ H]. now destruct (ahas _ a). Qed.
+
+Definition mk_m (g : graph) (next : Z) (prev : option Z) (pend : Z) (stack : list (option Z)) (rings : ringtab) : mstate :=
+  {| m_g := g; m_next := next; m_prev := prev; m_pend := pend; m_stack := stack; m_rings := rings |}.
+Lemma m_copies_some n a : forall g cur p pend, exists g' nx p', m_copies n a g cur (Some p) pend = (g', nx, Some p').
+Proof.
+  induction n as [|n IH]; intros g cur p pend; [eexists _, _, _; reflexivity|]. cbn [m_copies]. apply IH.
+Qed.
+(** the body of one copy, up to and including the closing parenthesis *)
+Lemma m_body_close fo : forall body es g next p inc top stk rings ts,
+  body_entries fo inc body = Some es -> body_ok fo inc body = true ->
+  m_run fo (body_toks body ++ TClose :: ts) (mk_m g next (Some p) inc (top :: stk) rings)
+  = match eb_recipe es g next (Some p) with
+    | Ok (g1, c1, _) => m_run fo ts (mk_m g1 c1 top 1 stk rings)
+    | Err e => Err e
+    end.
+Proof.
+  induction body as [|b r IH]; intros es g next p inc top stk rings ts He Hok.
+  - cbn in He. injection He as <-. reflexivity.
+  - cbn [body_entries] in He. destruct (parse_graph_base_node fo (bn_name b)) as [a|] eqn:Ea; [|discriminate].
+    destruct (body_entries fo (oord (bn_bond b)) r) as [es'|] eqn:Er; [|discriminate]. injection He as <-.
+    cbn [body_ok] in Hok. apply andb_prop in Hok as [Hok Hr]. apply andb_prop in Hok as [Hok Ho]. apply andb_prop in Hok as [Hn Hs].
+    cbn [body_toks flat_map]. fold (body_toks r). unfold bnode_toks. rewrite <- !app_assoc. cbn [app].
+    cbn [m_run m_step mk_m m_g m_next m_prev m_pend m_stack m_rings].
+    rewrite Ea. cbn [bind eb_recipe]. rewrite Nat2Z.id.
+    assert (Hc : (mult_val (bn_mult b) <= 1)%nat \/ inc = 1).
+    { apply orb_prop in Ho as [Ho|Ho]; [left; now apply Nat.leb_le|right; now apply Z.eqb_eq]. }
+    rewrite (eb_nodes_copies _ a inc g next p (name_ok_ahas fo _ a Hn Ea) Hc).
+    destruct (m_copies_some (mult_val (bn_mult b)) a g next p inc) as (g' & nx & p' & Ec). rewrite Ec. cbn [bind].
+    assert (Eb : forall ts0, m_run fo (osym_tok (bn_bond b) ++ ts0) (mk_m g' nx (Some p') 1 (top :: stk) rings)
+                 = m_run fo ts0 (mk_m g' nx (Some p') (oord (bn_bond b)) (top :: stk) rings)).
+    { intros ts0. destruct (bn_bond b); reflexivity. }
+    unfold mk_m in Eb. rewrite Eb. apply (IH es' g' nx p' _ top stk rings ts Er Hr).
+Qed.
+
+(** ** units *)
+Record unit_t := { u_name : pystr; u_mult : option (list nat); u_bond : option sym; u_body : list bnode;
+                   u_ms : option sym; u_count : list nat; u_after : option sym }.
+Definition copy_toks (u : unit_t) : list tok :=
+  osym_tok (u_ms u) ++ TNode (u_name u) 1 :: osym_tok (u_bond u) ++ TOpen :: body_toks (u_body u) ++ [TClose].
+
+Lemma m_copy fo u aA es g next p stack rings ts :
+  parse_graph_base_node fo (u_name u) = Ok aA -> name_ok fo (u_name u) = true ->
+  body_entries fo (oord (u_bond u)) (u_body u) = Some es -> body_ok fo (oord (u_bond u)) (u_body u) = true ->
+  m_run fo (copy_toks u ++ ts) (mk_m g next (Some p) 1 stack rings)
+  = match eb_recipe ((1, aA, Some (oord (u_ms u))) :: es) g next (Some p) with
+    | Ok (g1, c1, _) => m_run fo ts (mk_m g1 c1 (Some next) 1 stack rings)
+    | Err e => Err e
+    end.
+Proof.
+  intros Ea Hn He Hok. unfold copy_toks. rewrite <- !app_assoc.
+  assert (Ems : forall ts0, m_run fo (osym_tok (u_ms u) ++ ts0) (mk_m g next (Some p) 1 stack rings)
+                = m_run fo ts0 (mk_m g next (Some p) (oord (u_ms u)) stack rings)).
+  { intros ts0. destruct (u_ms u); reflexivity. }
+  rewrite Ems. cbn [app m_run m_step mk_m m_g m_next m_prev m_pend m_stack m_rings]. rewrite Ea. cbn [bind m_copies].
+  cbn [eb_recipe Z.to_nat]. change (Pos.to_nat 1) with 1%nat. cbn [eb_nodes]. unfold py_add_node.
+  rewrite (name_ok_ahas fo _ aA Hn Ea). cbn [bind of_option].
+  change (order_attr (Some (oord (u_ms u)))) with (eorder (oord (u_ms u))).
+  set (g' := add_edge (add_node g next aA) p next (eorder (oord (u_ms u)))).
+  rewrite <- !app_assoc.
+  assert (Eb : forall ts0, m_run fo (osym_tok (u_bond u) ++ ts0) (mk_m g' (next + 1) (Some next) 1 stack rings)
+               = m_run fo ts0 (mk_m g' (next + 1) (Some next) (oord (u_bond u)) stack rings)).
+  { intros ts0. destruct (u_bond u); reflexivity. }
+  unfold mk_m in Eb. rewrite Eb. cbn [app m_run m_step m_g m_next m_prev m_pend m_stack m_rings bind].
+  rewrite <- app_assoc. cbn [app].
+  exact (m_body_close fo (u_body u) es g' (next + 1) next (oord (u_bond u)) (Some next) stack rings ts He Hok).
+Qed.
+
+Lemma m_copies_all fo u aA es stack rings ts :
+  parse_graph_base_node fo (u_name u) = Ok aA -> name_ok fo (u_name u) = true ->
+  body_entries fo (oord (u_bond u)) (u_body u) = Some es -> body_ok fo (oord (u_bond u)) (u_body u) = true ->
+  forall n g next p base,
+  m_run fo (concat (repeat (copy_toks u) n) ++ ts) (mk_m g next (Some p) 1 stack rings)
+  = match copies_run n ((1, aA, Some (oord (u_ms u))) :: es) g next (Some p) base with
+    | Ok (g1, c1, prev1, _) => m_run fo ts (mk_m g1 c1 prev1 1 stack rings)
+    | Err e => Err e
+    end.
+Proof.
+  intros Ea Hn He Hok. induction n as [|n IH]; intros g next p base; [reflexivity|].
+  cbn [repeat concat copies_run]. rewrite <- app_assoc. rewrite (m_copy fo u aA es g next p stack rings _ Ea Hn He Hok).
+  destruct (eb_recipe _ g next (Some p)) as [[[g1 c1] p1]|]; cbn [bind]; [|reflexivity]. apply IH.
+Qed.
